@@ -63,6 +63,44 @@ SHARD = 40
 # ----------------------------------------------------------------------------------------
 # the encoding / recording module
 
+TARGET_FACTOR = {0: 1, 1: 2, 2: 3, -1: 3}       # EncNet returns the columns 1*s, 2*s, 3*s
+
+
+def npint(v, kind):
+    import numpy
+    if v is None or kind in (None, 'int'):
+        return v
+    return numpy.int64(v) if kind == 'np64' else numpy.int32(v)
+
+
+def call_options(inp, v, kw):
+    """the optional parameters of one call, in the forms the family asks for: batch_size /
+    n_shuffles / random_state as Python or numpy integers or not passed at all (defaults 32 / 20),
+    device as str or torch.device, verbose, print_convergence_deltas, hypothetical together with
+    raw_outputs (ignored then)"""
+    if v['b'] is not None:
+        kw['batch_size'] = npint(v['b'], v.get('btype'))
+    if not inp.get('ns_omitted'):
+        kw['n_shuffles'] = npint(inp['ns'], inp.get('nstype'))
+    kw['random_state'] = npint(inp['seed'], inp.get('seedtype')) if inp.get('seed') is not None else inp.get('tensor_seed')
+    kw['device'] = torch.device('cpu') if v.get('device_obj') else 'cpu'
+    if v.get('verbose'):
+        kw['verbose'] = True
+    if v.get('print_deltas'):
+        kw['print_convergence_deltas'] = True
+    kw['raw_outputs'] = inp['mode'] == 'raw'
+    kw['hypothetical'] = inp['mode'] == 'hyp' or (inp['mode'] == 'raw' and bool(inp.get('raw_hyp')))
+    kw['target'] = inp.get('target', 0)
+    return kw
+
+
+def quiet_call(f, *a, **kw):
+    import contextlib
+    import io
+    with contextlib.redirect_stdout(io.StringIO()), contextlib.redirect_stderr(io.StringIO()):
+        return f(*a, **kw)
+
+
 class EncOp(torch.nn.Module):
     def forward(self, x):
         self.seen = x.detach().clone()     # the op keeps its own copy: no reliance on tangermeme's hook fields
@@ -125,7 +163,8 @@ class EncNet(torch.nn.Module):
             t = t + a.float().reshape(a.shape[0], -1).sum(dim=1)
         self.enc.t = t
         y = self.relu(self.enc(X))
-        return y.reshape(y.shape[0], -1).sum(dim=1, keepdim=True)
+        s = y.reshape(y.shape[0], -1).sum(dim=1, keepdim=True)
+        return torch.cat([s, 2.0 * s, 3.0 * s], dim=1)
 
 
 def tcols(t):
@@ -146,27 +185,38 @@ def run_enc(inp):
     reffn = TaggedRefs(inp.get('reffn', 'row')) if refs is None else None
     runs = []
     net = EncNet(reffn)         # the calls of a family are made in order on ONE model object ...
+    allsel = list(range(N))
     for v in inp['vars']:
         sel = v['sel']
         if v.get('fresh'):      # ... or on a fresh copy
             net = EncNet(reffn)
+        if v.get('noise'):
+            # an unrelated call in between (other examples, n_shuffles, mode, target, rule table): ignored
+            try:
+                quiet_call(deep_lift_shap, net, X[:1] + 1.0, batch_size=3, n_shuffles=3,
+                           references=TaggedRefs('flat'), hypothetical=(inp['mode'] != 'hyp'),
+                           raw_outputs=(inp['mode'] != 'raw'), target=1,
+                           additional_nonlinear_ops={EncOp: enc_rule, torch.nn.ReLU: relu_twice},
+                           warning_threshold=1e30, device='cpu', random_state=7)
+            except Exception:
+                pass
         net.log = []
         if reffn is not None:
             reffn.calls = []
         rec = {'ok': False, 'out': None, 'refs': None}
         try:
-            Xv = X[sel]
+            same = sel == allsel     # the identity selection passes the caller's own tensor objects
+            Xv = X if same else X[sel]
             ops = {EncOp: enc_rule}
             if v.get('cls', 0) == 1:
                 ops[torch.nn.ReLU] = relu_twice
-            kw = dict(target=0, batch_size=v['b'], n_shuffles=inp['ns'], return_references=inp['ret'],
-                      hypothetical=(inp['mode'] == 'hyp'), raw_outputs=(inp['mode'] == 'raw'),
-                      additional_nonlinear_ops=ops, warning_threshold=1e30,
-                      device='cpu', random_state=inp['seed'])
-            kw['references'] = refs[sel] if refs is not None else reffn
+            kw = call_options(inp, v, dict(return_references=inp['ret'], additional_nonlinear_ops=ops,
+                                           warning_threshold=1e30))
+            kw['references'] = (refs if same else refs[sel]) if refs is not None else reffn
             if args:
-                kw['args'] = tuple(a[sel] for a in args)
-            res = deep_lift_shap(net, Xv, **kw)
+                av = [a if same else a[sel] for a in args]
+                kw['args'] = list(av) if inp.get('args_list') else tuple(av)
+            res = quiet_call(deep_lift_shap, net, Xv, **kw)
             if inp['ret']:
                 attr, rr = res
                 rec['refs'] = [[tcols(r) for r in ex] for ex in rr]
@@ -224,13 +274,35 @@ def build_net(arch, L, wseed):
     return net
 
 
+N_OUT = {'conv-relu-pool-lin': 2, 'flat-lin-tanh-lin': 2, 'conv-elu-conv-relu-lin': 1, 'conv-relu-lin-scaled': 1}
+
+
 def real_inputs(inp):
     from tangermeme.utils import random_one_hot
-    X = random_one_hot((inp['N'], 4, inp['L']), random_state=inp['xseed']).type(torch.float32)
+    dt = torch.float64 if inp.get('dtype') == 'f64' else torch.float32
+    X = random_one_hot((inp['N'], 4, inp['L']), random_state=inp['xseed']).type(dt)
+    # degenerate examples: a dinucleotide repeat / a homopolymer with one other character at the
+    # end -- their dinucleotide shuffles are (mostly) the sequence itself
+    for e, kind in enumerate(inp.get('degenerate', [])):
+        if e < inp['N'] and kind:
+            X[e] = 0
+            for l in range(inp['L']):
+                X[e, (l % 2) if kind == 'repeat' else (0 if l < inp['L'] - 1 else 3), l] = 1
     alpha = None
     if inp['arch'] == 'conv-relu-lin-scaled':
-        alpha = (torch.arange(inp['N']).float()[:, None] * 0.5 + 1.0)
+        alpha = (torch.arange(inp['N']).type(dt)[:, None] * 0.5 + 1.0)
     return X, alpha
+
+
+def real_reference_tensor(inp, X):
+    """an explicit reference tensor: shuffles, except that every reference of example 0 and the
+    first reference of example 1 are the sequences themselves"""
+    from tangermeme.ersatz import shuffle
+    refs = shuffle(X, n=inp['ns'], random_state=inp['seed']).type(X.dtype)
+    refs[0, :] = X[0]
+    if inp['N'] > 1:
+        refs[1, 0] = X[1]
+    return refs
 
 
 def qlist(t):
@@ -258,26 +330,30 @@ def run_real(inp):
 
     def make():
         net = build_net(inp['arch'], inp['L'], inp['wseed'])
+        if inp.get('dtype') == 'f64':
+            net = net.double()
         net.register_forward_pre_hook(lambda m, a: sizes.append(int(a[0].shape[0])))
         return net
 
     net = [make()]
+    rtensor = real_reference_tensor(inp, X) if inp.get('reffn') == 'tensor' else None
     reffn = shuffle if inp.get('reffn') == 'shuffle' else dinucleotide_shuffle
+    allx = list(range(inp['N']))
 
-    def call(sel, b, ret, cls=0, fresh=False):
+    def call(sel, b, ret, cls=0, fresh=False, v=None):
         if fresh:
             net[0] = make()
-        kw = dict(target=0, batch_size=b, n_shuffles=inp['ns'], return_references=ret, references=reffn,
-                  hypothetical=(inp['mode'] == 'hyp'), raw_outputs=(inp['mode'] == 'raw'),
-                  warning_threshold=1e30, device='cpu', random_state=inp['seed'])
+        same = sel == allx
+        v = dict(v or {}, b=b)
+        kw = call_options(inp, v, dict(return_references=ret, warning_threshold=1e30))
+        kw['references'] = (rtensor if same else rtensor[sel]) if rtensor is not None else reffn
         if cls == 1:
             kw['additional_nonlinear_ops'] = {OVERRIDE[inp['arch']]: plain_gradient}
         if alpha is not None:
-            kw['args'] = (alpha[sel],)
-        return deep_lift_shap(net[0], X[sel], **kw)
+            kw['args'] = (alpha if same else alpha[sel],)
+        return quiet_call(deep_lift_shap, net[0], X if same else X[sel], **kw)
 
     out = {'runs': [], 'oracle': None}
-    allx = list(range(inp['N']))
     try:    # oracle for the plain class, before anything else: one pair per batch, by definition
             # shuffle j of example e is references(X[e:e+1], n=1, random_state + j)
         attr, rr = call(allx, 1, True)
@@ -289,7 +365,17 @@ def run_real(inp):
         del sizes[:]
         rec = {'ok': False, 'out': None, 'refs': None}
         try:
-            res = call(v['sel'], v['b'], inp['ret'], v.get('cls', 0), v.get('fresh', False))
+            if v.get('noise'):     # an unrelated call in between, ignored
+                try:
+                    quiet_call(deep_lift_shap, net[0], X[:1], batch_size=2, n_shuffles=inp['ns'] + 1, target=-1,
+                               hypothetical=(inp['mode'] != 'hyp'), device='cpu', random_state=1,
+                               warning_threshold=1e30,
+                               additional_nonlinear_ops={OVERRIDE[inp['arch']]: plain_gradient},
+                               **({'args': (alpha[:1],)} if alpha is not None else {}))
+                except Exception:
+                    pass
+                del sizes[:]
+            res = call(v['sel'], v['b'], inp['ret'], v.get('cls', 0), v.get('fresh', False), v)
             if inp['ret']:
                 attr, rr = res
                 rec['refs'] = [[ilist(r) for r in ex] for ex in rr]
@@ -332,8 +418,12 @@ def tlit_AL(t):
     return C.zmat([list(col) for col in zip(*t)]) if t and t[0] else '[]'
 
 
+def eff_b(v):
+    return 32 if v['b'] is None else v['b']        # batch_size not passed: the default
+
+
 def var_lit(v):
-    return '(Var %s %s %s)' % (C.natlist(v['sel']), C.z(v['b']), C.nat(v.get('cls', 0)))
+    return '(Var %s %s %s)' % (C.natlist(v['sel']), C.z(eff_b(v)), C.nat(v.get('cls', 0)))
 
 
 def call_lit(cl):
@@ -357,8 +447,9 @@ def coq_case(inp, out):
             rf = C.lst([tlit_AL(r) for r in inp['refs'][e]]) if inp['seed'] is None else '[]'
             exs.append('(ExE %s %s %s)' % (tlit_AL(inp['X'][e]), ar, rf))
         mode = {'raw': 'Raw', 'proc': 'Proc', 'hyp': 'Hyp'}[inp['mode']]
-        cfg = '(CfgE %s %s %s %s %s %s)' % (mode, C.opt(inp['seed']), C.nat(inp['ns']),
-                                            C.boolean(inp['ret']), C.nat(len(inp['args'])), C.lst(exs))
+        cfg = '(CfgE %s %s %s %s %s %s %s)' % (mode, C.opt(inp['seed']), C.nat(inp['ns']),
+                                               C.boolean(inp['ret']), C.nat(len(inp['args'])),
+                                               C.z(TARGET_FACTOR[inp.get('target', 0)]), C.lst(exs))
         rl = []
         for r in runs:
             if r['ok']:
@@ -402,7 +493,7 @@ def coq_case(inp, out):
 
 def nontrivial(inp, out):
     ns = inp.get('ens', inp['ns'])
-    strad = any(v['b'] >= 1 and v['b'] % ns != 0 and v['b'] < len(v['sel']) * ns for v in inp['vars'])
+    strad = any(eff_b(v) >= 1 and eff_b(v) % ns != 0 and eff_b(v) < len(v['sel']) * ns for v in inp['vars'])
     if not strad or not all(r['ok'] for r in out.get('runs', [])):
         return False
     if inp['kind'] == 'real':
@@ -422,8 +513,8 @@ def hist_key(inp, out):
         return 'enc/%s/%s/%s/args%d/%s/%s' % (inp['mode'], 'tensor' if inp['seed'] is None else 'function-' + inp.get('reffn', 'row'),
                                               'refs' if inp['ret'] else 'norefs', len(inp['args']),
                                               inp.get('family', '?'), 'ok' if ok else 'raise')
-    return 'real/%s/%s/%s/%s/%s' % (inp['arch'], inp.get('reffn', 'dinuc'), inp['mode'], inp.get('family', '?'),
-                                    'ok' if ok else 'raise')
+    return 'real/%s/%s/%s/%s/%s/%s' % (inp['arch'], inp.get('dtype', 'f32'), inp.get('reffn', 'dinuc'), inp['mode'],
+                                       inp.get('family', '?'), 'ok' if ok else 'raise')
 
 
 # ----------------------------------------------------------------------------------------
@@ -458,7 +549,30 @@ def enc_base(rng, N, ns, mode, source, ret, nargs):
     else:
         inp.update(seed=rng.randint(0, 50), refs=None, ns=ns, reffn='flat' if source == 'function-flat' else 'row')
     inp['ens'] = ns          # the effective number of shuffles
+    # parameter forms: target column, args as list, hypothetical=True together with raw_outputs,
+    # numpy integers for random_state / n_shuffles, an (ignored) integer random_state with a tensor
+    inp.update(target=rng.choice([0, 0, 1, 2, -1]), args_list=rng.random() < 0.3, raw_hyp=rng.random() < 0.3,
+               seedtype=rng.choice(['int', 'int', 'np64']), nstype=rng.choice(['int', 'int', 'np64', 'np32']),
+               tensor_seed=rng.choice([None, None, 3]))
     return inp
+
+
+def sprinkle(rng, vs):
+    """parameter forms of single calls: numpy batch sizes, torch.device, verbose, printed deltas, and
+    an unrelated call made just before ("noise")"""
+    for v in vs[2:]:
+        r = rng.random()
+        if r < 0.06:
+            v['btype'] = rng.choice(['np64', 'np32'])
+        elif r < 0.10:
+            v['device_obj'] = True
+        elif r < 0.13:
+            v['verbose'] = True
+        elif r < 0.16:
+            v['print_deltas'] = True
+        elif r < 0.24:
+            v['noise'] = True
+    return vs
 
 
 def ident(N):
@@ -478,9 +592,10 @@ def batch_family(rng, N, ns):
     vs = [full(N, big), full(N, big), full(N, big, cls=1)]
     sweep = [full(N, b) for b in range(1, N * ns + 1)]
     sweep.insert(rng.randint(0, len(sweep)), full(N, rng.randint(1, big), cls=1))
+    sweep.insert(rng.randint(0, len(sweep)), full(N, None))      # batch_size not passed: 32
     vs += sweep
     vs += [full(N, big), full(N, rng.randint(1, big), cls=1, fresh=True), full(N, big, fresh=True)]
-    return vs
+    return sprinkle(rng, vs)
 
 
 def selections(N):
@@ -499,7 +614,7 @@ def selection_family(rng, N, ns, sels):
     vs = [full(N, N * ns + 1)]
     for s in sels:
         vs.append({'sel': s, 'b': straddling_b(rng, len(s), ns)})
-    return vs
+    return sprinkle(rng, vs)
 
 
 def fix_ns(inp):
@@ -542,6 +657,17 @@ def gen_enc(tier, rng):
                     c['vars'] = selection_family(rng, N, ens, sels[k:k + chunk])
                     c['family'] = 'selection'
                     yield c
+    # n_shuffles not passed (default 20) with a reference function: every batch size 1..20n+1
+    for t in range(2 if quick else 8):
+        N = 1 + t % 2
+        inp = enc_base(rng, N, 20, MODES[t % 3], rng.choice(SOURCES[1:]), t % 2 == 0, t % 3)
+        inp['ns_omitted'] = True
+        vs = [full(N, 20 * N + 1), full(N, None)] + [full(N, b) for b in range(1, 20 * N + 1)]
+        if quick:
+            vs = vs[:2] + rng.sample(vs[2:], 12)
+        inp['vars'] = vs + [{'sel': [N - 1], 'b': 7}, full(N, 20 * N + 1)]
+        inp['family'] = 'ns-default'
+        yield inp
     # outside the quantifier: batch_size <= 0 (the code then runs everything in one batch)
     for _ in range(4 if quick else 20):
         N, ns = rng.randint(1, 3), rng.randint(1, 3)
@@ -562,7 +688,11 @@ def gen_real(tier, rng):
         inp = {'kind': 'real', 'arch': arch, 'N': N, 'L': rng.choice([8, 10, 12]), 'ns': ns,
                'xseed': rng.randint(0, 10 ** 6), 'wseed': rng.randint(0, 10 ** 6),
                'seed': rng.randint(0, 10 ** 6), 'mode': MODES[(t // len(ARCHS)) % 3],
-               'ret': rng.random() < 0.7, 'reffn': 'shuffle' if (t // 2) % 2 else 'dinuc'}
+               'ret': rng.random() < 0.7, 'reffn': ['dinuc', 'shuffle', 'tensor'][(t // 2) % 3],
+               'dtype': 'f64' if t % 5 == 4 else 'f32',
+               'degenerate': rng.choice([[], ['repeat'], ['homo', 'repeat'], [None, 'homo']]),
+               'seedtype': rng.choice(['int', 'np64']), 'raw_hyp': rng.random() < 0.3}
+        inp['target'] = rng.choice([0, -1] + list(range(N_OUT[arch])))
         vs = batch_family(rng, N, ns)
         if quick and len(vs) > 14:
             mid = vs[3:-3]
@@ -571,7 +701,7 @@ def gen_real(tier, rng):
         extra = [{'sel': s, 'b': straddling_b(rng, len(s), ns)}
                  for s in (rng.sample(sels, min(len(sels), 6 if quick else 16)))]
         extra.append({'sel': [rng.randrange(N) for _ in range(N + 1)], 'b': rng.randint(1, N * ns)})
-        inp['vars'] = vs[:-3] + extra + vs[-3:]
+        inp['vars'] = vs[:-3] + sprinkle(rng, [{}, {}] + extra)[2:] + vs[-3:]
         inp['family'] = 'batch+selection'
         yield inp
 
@@ -598,7 +728,7 @@ def shrink(inp):
         if len(v['sel']) > 1 and v['sel'] != vs[0]['sel']:
             for k in range(len(v['sel'])):
                 yield dict(inp, vars=vs[:-1] + [dict(v, sel=v['sel'][:k] + v['sel'][k + 1:])])
-        if v['b'] > 1:
+        if v['b'] is not None and v['b'] > 1:
             yield dict(inp, vars=vs[:-1] + [dict(v, b=v['b'] - 1)])
 
 
